@@ -9,16 +9,11 @@ import Mathlib.Analysis.SpecialFunctions.Complex.Arg
 import Mathlib.Analysis.SpecialFunctions.Pow.Real
 import Mathlib.Analysis.SpecialFunctions.Sqrt
 import Gama.Model.GeoScalar
+import Gama.Lemmas.RealScalar
 namespace Gama
 
-noncomputable instance instScalarReal : Scalar ℝ where
-  sqrt := Real.sqrt
-  ofNat := fun n => (n : ℝ)
-  ofSci := fun m s e => if s then (m : ℝ) / (10 : ℝ) ^ e else (m : ℝ) * (10 : ℝ) ^ e
-  decLt := fun _ _ => Classical.propDecidable _
-  decLe := fun _ _ => Classical.propDecidable _
-  beq := fun a b => @decide (a = b) (Classical.propDecidable _)
-  abs := fun x => |x|
+/- `Scalar ℝ` (`Gama.instScalarReal`) is declared once, in `Lemmas/RealScalar.lean`, shared with the
+   C05/C06/C07 and C09 lemma files. -/
 
 noncomputable instance instTranscReal : Transc ℝ where
   sin := Real.sin
